@@ -257,7 +257,7 @@ def gen_source(rng, size=4096, tight=False):
             if l == here[-1] and rng.random() < 0.5:
                 pre = l + ": "
             else:
-                lines.append(rng.choice(["", " ", "\t"]) + l + ":" + rng.choice(["", " # label"]))
+                lines.append(rng.choice(["", " ", "\t"]) + l + ":" + rng.choice(["", " # label", " # label #1"]))
         if rng.random() < 0.15:
             lines.append(rng.choice(["", "   ", "# comment", "  # BRZ 5"]))
         if rng.random() < 0.65:
@@ -270,15 +270,15 @@ def gen_source(rng, size=4096, tight=False):
                 addr = rng.choice([0, 1, min(4095, size - 1), rng.randrange(min(4096, size))])
                 t = rng.choice([str(addr), "0x%x" % addr, "0x%03X" % addr, "0x%04x" % addr])
             words.append((MNEMONICS.index(m) << 12) | (addr % 4096))
-            lines.append(rng.choice(["", " ", "\t", "    "]) + pre + case_of(m) + " " + t + rng.choice(["", " # c", "   "]))
+            lines.append(rng.choice(["", " ", "\t", "    "]) + pre + case_of(m) + " " + t + rng.choice(["", " # c", "   ", " # element #2", " ## x", " # a # b #"]))
         else:
             m = rng.choice(MNEMONICS[8:])
             words.append(MNEMONICS.index(m) << 12)
-            lines.append(rng.choice(["", "  "]) + pre + case_of(m) + rng.choice(["", " #x"]))
+            lines.append(rng.choice(["", "  "]) + pre + case_of(m) + rng.choice(["", " #x", " #x #y", "#"]))
     for l in labels:
         if pos[l] == n:
             lines.append(l + ":")
-    dl = [rng.choice(["", "    "]) + "%s: .word " % nm + rng.choice([", ", ",", " , "]).join(rng.choice([str(v), hex(v)]) for v in vals) for nm, vals, a in variables]
+    dl = [rng.choice(["", "    "]) + "%s: .word " % nm + rng.choice([", ", ",", " , "]).join(rng.choice([str(v), hex(v)]) for v in vals) + rng.choice(["", "", " # v", " # v #2"]) for nm, vals, a in variables]
     if dl:
         text = "\n".join([".data"] + dl + [".text"] + lines) if rng.random() < 0.5 else "\n".join(([".text"] if rng.random() < 0.5 else []) + lines + [".data"] + dl)
     else:
@@ -300,8 +300,13 @@ def run_asm_case(case, res):
         res.count("sources_with_other_memory_size")
     try:
         s.load_program(case["text"])
+        if case.get("again"):
+            # the editor assembles the same source again and again into the same simulation (same labels, same
+            # variable names); every assembly must place the same image
+            res.count("sources_assembled_twice_on_one_simulation")
+            s.load_program(case["text"])
     except Exception as e:
-        res.violation("C19", "load-failed", "well-formed TOY source failed to load (memory size %s): %r" % (case.get("size", 4096), e), case)
+        res.violation("C19", "load-failed", "well-formed TOY source failed to load (memory size %s%s): %r" % (case.get("size", 4096), ", second assembly on the same simulation" if case.get("again") else "", e), case)
         return
     res.count("sources_compared")
     exp = {int(a): v for a, v in case["image"].items()}
@@ -630,6 +635,8 @@ def run_shard(spec, res):
         for it in range(spec["n"]):
             sz = rng.choice([4096, 4096, 4096, 4096, 64, 256, 1000, 2048, 5000, 16, 24, 64])
             case = gen_source(rng, sz, tight=sz <= 64 and rng.random() < 0.6)
+            if rng.random() < 0.3:
+                case["again"] = True
             if sz <= 64:
                 res.count("tight_memory_sources")
             guarded(run_case, prop, case, res)
